@@ -378,13 +378,10 @@ def run_case(args):
         if case.get("shadow"):
             decoy, dmid = build_design(h, dict(req, sized="wl" if req["sized"] != "wl" else ""), tag + "d")
             dmid.name = bmid.name          # another module of the same name, reached first in the same compile call
-        try:
+        def do_compile():
             how = case["how"]
             if decoy is not None:
-                how = "list"
                 pm.compile([decoy, b])
-            if how == "list":
-                pass
             elif how == "direct":
                 pm.compile(b)
             elif how == "default":
@@ -394,12 +391,15 @@ def run_case(args):
                 hp.compile(b, pdk=pm.__name__)
             else:
                 hp.compile(b, pdk=pm)
+        try:
+            do_compile()
         except Exception as ex:
-            # a refused request is refused again when the very same design is compiled once more (what the first attempt left behind - devices already
-            # replaced, modules already seen - may not turn the refusal into a silent success); if the second attempt returns, it is judged as a return
+            # a refused request is refused again when the very same design is compiled once more, the same way (what the first attempt left behind -
+            # devices already replaced, modules already seen - may not turn the refusal into a silent success); if the second attempt returns, it is
+            # judged as a return
             again = True
             try:
-                pm.compile(b)
+                do_compile()
                 again = False
             except Exception:
                 pass
